@@ -37,12 +37,14 @@ func computeReservedNamesForScope(scope *js_ast.Scope, symbols ast.SymbolMap, na
 		if symbol.Kind == ast.SymbolUnbound || symbol.Flags.Has(ast.MustNotBeRenamed) {
 			names[symbol.OriginalName] = 1
 		}
+		reservePinnedNameOfMergedSymbol(symbol, symbols, names)
 	}
 	for _, ref := range scope.Generated {
 		symbol := symbols.Get(ref)
 		if symbol.Kind == ast.SymbolUnbound || symbol.Flags.Has(ast.MustNotBeRenamed) {
 			names[symbol.OriginalName] = 1
 		}
+		reservePinnedNameOfMergedSymbol(symbol, symbols, names)
 	}
 
 	// Symbols in nested scopes can also be pinned, either because there's a
@@ -51,6 +53,17 @@ func computeReservedNamesForScope(scope *js_ast.Scope, symbols ast.SymbolMap, na
 	// tree to get all reserved names.
 	for _, child := range scope.Children {
 		computeReservedNamesForScope(child, symbols, names)
+	}
+}
+
+// A symbol may have been merged into another symbol, in which case the name
+// that ends up being used is the name of that other symbol. That name must
+// also be reserved if that other symbol must not be renamed.
+func reservePinnedNameOfMergedSymbol(symbol *ast.Symbol, symbols ast.SymbolMap, names map[string]uint32) {
+	if symbol.Link != ast.InvalidRef {
+		if merged := symbols.Get(ast.FollowSymbols(symbols, symbol.Link)); merged.Flags.Has(ast.MustNotBeRenamed) {
+			names[merged.OriginalName] = 1
+		}
 	}
 }
 
